@@ -391,6 +391,8 @@ func TestVerifC16(t *testing.T) {
 			"original_length":    res.index + 1,
 		})
 	}
+	c16ConcurrentEdges(m, vk.NewRand(0xC16C))
+	m.Require("concurrent_revival_rounds")
 	m.Require(
 		"threshold_reached_exactly_probe_fail_tcp", "threshold_reached_exactly_probe_fail_dnsudp",
 		"threshold_reached_exactly_traffic_fail_tcp", "threshold_reached_exactly_traffic_fail_dnsudp", "threshold_reached_exactly_traffic_fail_dataudp",
